@@ -2,6 +2,7 @@ import Mochi.Model.Broker
 import Mochi.Lemmas.Gather
 import Mochi.Lemmas.BrokerDelivery
 import Mochi.Lemmas.BrokerPublishOp
+import Mochi.Lemmas.BrokerQosDelivery
 /-!
 # C03 — Every published message reaches exactly the entitled subscribers, once each
 
@@ -616,6 +617,101 @@ example : (step c03State (.inlinePublish [97, 47, 98] [1] false 0)).2.filterMap 
 
 end Mochi.Broker
 
+/-! ## Publications of ANY QoS: who is written, and what excuses a missing receiver
+
+Lemmas: `Mochi/Lemmas/BrokerQosDelivery.lean` (namespace `Q1`).  `Q1.verdict s i` classifies a delivery of QoS > 0 to
+client object `i` on the state BEFORE the publish: `limit` (in-flight limit reached), `exhausted` (no packet identifier),
+`deferred pid` (send quota 0 under a Receive Maximum: stored, `expiry = -1`), `sent pid` (stored and written) —
+`publishToClientCore_qos_shape` (`Props/C10.lean`).  `Q1.ServedVia s pk subs n`: `EntitledVia s pk subs n` through an
+entry `(cid, sub)` whose copy is QoS 0 or whose delivery is in case `sent`.  `Q1.entryObj s i sub pk`: the receiving
+object after its entry (unchanged / the deferred record appended / the sent record appended and one unit of send quota
+taken).  `Q1.NoAliases s`: no registered client has outbound topic aliases. -/
+namespace Mochi.Broker
+open Mochi.Topics
+
+/-- **Item 3.**  `WF s`, `ConnDistinct s`, no matching shared subscription, no outbound aliases; `pk` an application
+    message of ANY QoS.  1. connection `n` is written a PUBLISH **iff** it is entitled (`EntitledVia`) AND (the copy is
+    QoS 0 OR the delivery is in case (d)): `Q1.ServedVia`;  2. at most one PUBLISH per connection;  3. the object of
+    every registered entry of the subscriber map ends exactly as its verdict says (`Q1.entryObj`, computed on the state
+    BEFORE the publish: each entry sees its own object untouched by the others), every other object is unchanged;
+    4. every output is an inline delivery or an output of a registered entry, and every output of an entry is there. -/
+theorem publishToSubscribers_writes_exact_qos (s : Server) (hw : WF s) (hcd : ConnDistinct s) (hna : Q1.NoAliases s)
+    (pk : Msg) (hig : pk.ignore = false) (ht : pk.type = 3)
+    (hsh : (subscribers s.topics pk.topic).shared = []) (n : Nat) :
+    ((∃ ver m me, Out.wrote n (.publish ver m me) ∈ (publishToSubscribers s pk).2) ↔
+      Q1.ServedVia s pk (subscribers s.topics pk.topic).subs n) ∧
+    ((publishToSubscribers s pk).2.filterMap pubConn).count n ≤ 1 ∧
+    (∀ cid i sub, (cid, i) ∈ s.clients → (cid, sub) ∈ (subscribers s.topics pk.topic).subs →
+      getObj (publishToSubscribers s pk).1 i = Q1.entryObj s i sub (stamped s pk) ∧
+      ∀ x ∈ Q1.entryOut s i sub (stamped s pk), x ∈ (publishToSubscribers s pk).2) ∧
+    (∀ k, (∀ cs ∈ (subscribers s.topics pk.topic).subs, assocGet s.clients cs.1 ≠ some k) →
+      getObj (publishToSubscribers s pk).1 k = getObj s k) ∧
+    (∀ x ∈ (publishToSubscribers s pk).2, (∃ id, x = Out.inline id pk.topic pk.payload) ∨
+      ∃ cid i sub, (cid, i) ∈ s.clients ∧ (cid, sub) ∈ (subscribers s.topics pk.topic).subs ∧
+        x ∈ Q1.entryOut s i sub (stamped s pk)) := by
+  have hnd := C03_one_entry_per_client s.topics pk.topic
+  obtain ⟨h1, h2, h3, h4, h5⟩ := Q1.subscribers_exact s hw hna pk hig ht hsh hnd
+  refine ⟨?_, ?_, ?_, h3, ?_⟩
+  · rw [← mem_pubConns, h1]
+    exact Q1.mem_recipientsQ s hw pk _ n
+  · rw [h1]
+    exact List.nodup_iff_count.mp (Q1.recipientsQ_nodup s hw hcd pk _ hnd) n
+  · intro cid i sub hm hs
+    have hg := assocGet_of_mem_nodup _ _ _ hw.clients_nodup hm
+    exact ⟨h2 (cid, sub) hs i hg, h5 (cid, sub) hs i hg⟩
+  · intro x hx
+    rcases h4 x hx with h | ⟨cs, hcs, i, hi, hxi⟩
+    · exact Or.inl h
+    · exact Or.inr ⟨cs.1, i, cs.2, assocGet_mem _ _ _ hi, hcs, hxi⟩
+
+/-- **the excuses, spelled out.**  An ENTITLED client (registered as `(cid, i)`, live, entry `(cid, sub)` of the
+    subscriber map passing No Local and the read permission) whose copy has QoS > 0:
+    (a)/(b) verdict `limit` / `exhausted`: its object is unchanged — nothing stored, nothing written by its entry;
+    (c) verdict `deferred pid`: nothing written by its entry; the copy is the LAST record of its in-flight list, with
+        `expiry = -1`, send quota unchanged;
+    (d) verdict `sent pid`: its entry writes exactly the copy; the copy is the last record of its in-flight list; send
+        quota − 1.  ("No missing receiver unless a flow-control / limit excuse applies": the oracle's rule.) -/
+theorem C03_missing_receiver_excused (s : Server) (hw : WF s) (hcd : ConnDistinct s) (hna : Q1.NoAliases s)
+    (pk : Msg) (hig : pk.ignore = false) (ht : pk.type = 3)
+    (hsh : (subscribers s.topics pk.topic).shared = [])
+    (cid : Str) (i : Nat) (sub : Sub) (hm : (cid, i) ∈ s.clients) (hs : (cid, sub) ∈ (subscribers s.topics pk.topic).subs)
+    (hp : Q1.passes s i sub pk = true) (hq : shapeQos s.caps sub pk.qos > 0) :
+    match Q1.verdict s i with
+    | .limit => getObj (publishToSubscribers s pk).1 i = getObj s i ∧ Q1.entryOut s i sub (stamped s pk) = []
+    | .exhausted => getObj (publishToSubscribers s pk).1 i = getObj s i ∧
+        (Q1.entryOut s i sub (stamped s pk)).filterMap pubConn = []
+    | .deferred pid => Q1.entryOut s i sub (stamped s pk) = [] ∧
+        (getObj (publishToSubscribers s pk).1 i).inflight =
+          (getObj s i).inflight ++ [{ Q1.copyOf s i sub (stamped s pk) pid with expiry := -1 }] ∧
+        (getObj (publishToSubscribers s pk).1 i).sendQuota = (getObj s i).sendQuota
+    | .sent pid =>
+        (Q1.liveB s i = true → Q1.entryOut s i sub (stamped s pk) =
+          [.wrote (getObj s i).conn (.publish (getObj s i).ver (Q1.copyOf s i sub (stamped s pk) pid)
+            (decide ((Q1.copyOf s i sub (stamped s pk) pid).expiry > 0) ||
+             decide ((Q1.copyOf s i sub (stamped s pk) pid).msgExpiry > 0)))]) ∧
+        (getObj (publishToSubscribers s pk).1 i).inflight =
+          (getObj s i).inflight ++ [Q1.copyOf s i sub (stamped s pk) pid] ∧
+        (getObj (publishToSubscribers s pk).1 i).sendQuota = (getObj s i).sendQuota - 1 := by
+  obtain ⟨ho, _⟩ := (publishToSubscribers_writes_exact_qos s hw hcd hna pk hig ht hsh 0).2.2.1 cid i sub hm hs
+  have hp' : Q1.passes s i sub (stamped s pk) = true := by
+    unfold Q1.passes at hp ⊢
+    rw [(stamped_fields s pk).1, (stamped_fields s pk).2.2.2.2]; exact hp
+  have hq' : shapeQos s.caps sub (stamped s pk).qos > 0 := by rw [(stamped_fields s pk).2.2.1]; exact hq
+  have eo : Q1.entryObj s i sub (stamped s pk) = Q1.verdictObj s i sub (stamped s pk) (Q1.verdict s i) := by
+    unfold Q1.entryObj; rw [if_pos hp', if_pos hq']
+  have eu : Q1.entryOut s i sub (stamped s pk) =
+      if Q1.liveB s i = true then Q1.verdictOut s i sub (stamped s pk) (Q1.verdict s i)
+      else (Q1.verdictOut s i sub (stamped s pk) (Q1.verdict s i)).filter (fun o => (pubConn o).isNone) := by
+    unfold Q1.entryOut; rw [if_pos hp', if_pos hq']
+  rw [ho, eo, eu]
+  cases Q1.verdict s i with
+  | limit => exact ⟨rfl, by cases Q1.liveB s i <;> rfl⟩
+  | exhausted => exact ⟨rfl, by cases Q1.liveB s i <;> rfl⟩
+  | deferred pid => exact ⟨by cases Q1.liveB s i <;> rfl, rfl, rfl⟩
+  | sent pid => exact ⟨fun hl => by rw [if_pos hl]; rfl, rfl, rfl⟩
+
+end Mochi.Broker
+
 #print axioms Mochi.Broker.publishToSubscribers_writes_exact
 #print axioms Mochi.Broker.C03_delivery_exact_state_partial
 #print axioms Mochi.Broker.C03_delivery_exact_runOps_partial
@@ -632,3 +728,5 @@ end Mochi.Broker
 #print axioms Mochi.Broker.C03_publish_op_exact_seq_partial
 #print axioms Mochi.Broker.c03_accepted
 #print axioms Mochi.Broker.recv_publish_delivery_exact_releases
+#print axioms Mochi.Broker.publishToSubscribers_writes_exact_qos
+#print axioms Mochi.Broker.C03_missing_receiver_excused
